@@ -3,6 +3,7 @@ package props
 import (
 	"bytes"
 	"fmt"
+	"math"
 	"sort"
 	"strings"
 
@@ -33,9 +34,9 @@ func init() {
 		Run: runC20,
 		Exhaustive: func(tier string) string {
 			if tier == "thorough" {
-				return "2..4 probes per category (block parsers: triggered and trigger-less; inline parsers; paragraph transformers; AST transformers; node renderers) x all distinct-priority assignments from a 6-value pool x all registration orders x 3 routes per probe x all accept patterns"
+				return "2..4 probes per category (block parsers: triggered and trigger-less; inline parsers; paragraph transformers; AST transformers; node renderers) x all distinct-priority assignments from a 6-value pool (incl. math.MinInt and math.MaxInt) x all registration orders x 3 routes per probe x all accept patterns"
 			}
-			return "2..3 probes per category (block parsers: triggered and trigger-less; inline parsers; paragraph transformers; AST transformers; node renderers) x all distinct-priority assignments from a 5-value pool x all registration orders x 3 routes per probe x all accept patterns"
+			return "2..3 probes per category (block parsers: triggered and trigger-less; inline parsers; paragraph transformers; AST transformers; node renderers) x all distinct-priority assignments from a 6-value pool (incl. math.MinInt and math.MaxInt) x all registration orders x 3 routes per probe x all accept patterns"
 		},
 		Floors: func(m *Merged) []string {
 			var out []string
@@ -444,19 +445,17 @@ func runC20(c *core.Ctx) {
 		}
 	}
 	maxN := c.N(3, 4)
+	// every pool straddles the built-in values and contains the extreme priorities
 	pools := map[string][]int{
-		"block":                 {50, 250, 450, 650, 950, 1050},
-		"block-free":            {50, 250, 450, 650, 950, 1050},
-		"inline":                {50, 150, 250, 450, 550, 1500},
-		"paragraph-transformer": {50, 150, 250, 999, 1500, -5},
-		"ast-transformer":       {-10, 5, 50, 999, 1500, 20000},
-		"renderer":              {50, 500, 999, 1001, 1500, 2000},
+		"block":                 {math.MinInt, 250, 450, 650, 1050, math.MaxInt},
+		"block-free":            {math.MinInt, 250, 450, 650, 1050, math.MaxInt},
+		"inline":                {math.MinInt, 150, 250, 450, 1500, math.MaxInt},
+		"paragraph-transformer": {math.MinInt, 50, 150, 999, 1500, math.MaxInt},
+		"ast-transformer":       {math.MinInt, -10, 5, 999, 20000, math.MaxInt},
+		"renderer":              {math.MinInt, 500, 999, 1001, 2000, math.MaxInt},
 	}
 	for _, cat := range []string{"block", "block-free", "inline", "paragraph-transformer", "ast-transformer", "renderer"} {
 		pool := pools[cat]
-		if c.Quick() {
-			pool = pool[:5]
-		}
 		docs := []string{"@x\n"}
 		switch cat {
 		case "block-free":
